@@ -811,6 +811,8 @@ def check_k10(ctx, rep, f, roles: Roles, rule=RULE + '.K10'):
                 a = e.args[0]
                 if isinstance(a, ast.Attribute) and a.attr == 'Q' and isinstance(a.value, ast.Name):
                     return role.get(a.value.id)
+            if isinstance(e, ast.Name) and str(role.get(e.id, '')).startswith('size:'):
+                return role[e.id][5:]
             if isinstance(e, ast.Name) and depth < 4:
                 if e.id in pair:
                     return size_term(pair[e.id], depth + 1)
@@ -856,25 +858,49 @@ def check_k10(ctx, rep, f, roles: Roles, rule=RULE + '.K10'):
                     t = size_term(x)
                     if t is not None:
                         ts.add(t)
+                    elif isinstance(x, ast.Name) and depth < 3:
+                        r = pair.get(x.id) or resolve_alias(g, x)
+                        if r is not x:
+                            ts |= terms(r, depth + 1)
                 return ts
             if terms(st.test) != {'answer', 'reference'}:
                 continue
-            out.append((g, st, appends(st.body), appends(st.orelse), ev))
+            in_body, in_else = appends(st.body), appends(st.orelse)
+            # `if <sizes agree>: return []` followed by `return [message]`: the code after the test is its else branch
+            if not st.orelse and st.body and isinstance(st.body[-1], ast.Return):
+                for blk in ast.walk(g.node):
+                    for fld in ('body', 'orelse'):
+                        lst = getattr(blk, fld, None)
+                        if isinstance(lst, list) and st in lst:
+                            rest = lst[lst.index(st) + 1:]
+                            if appends(rest) or any(isinstance(r0, ast.Return) and isinstance(r0.value, ast.List) and r0.value.elts for r0 in rest):
+                                in_else = True
+            if any(isinstance(r0, ast.Return) and isinstance(r0.value, ast.List) and r0.value.elts for r0 in st.body):
+                in_body = True
+            out.append((g, st, in_body, in_else, ev))
         return out
 
     tests = analyse(f, role0)
-    # local helpers that are handed both automata
+
+    def size_role_here(e):
+        if isinstance(e, ast.Call) and isinstance(e.func, ast.Name) and e.func.id == 'len' and len(e.args) == 1 and isinstance(e.args[0], ast.Attribute) \
+                and e.args[0].attr == 'Q' and isinstance(e.args[0].value, ast.Name):
+            return role0.get(e.args[0].value.id)
+        return None
+    # local helpers that are handed both automata, or both sizes
     for c in ctx.prog.calls_in(f):
         cal = ctx.callee(f, c)
         if cal is None or cal is f or not (cal.parent is f or cal.module is f.module):
             continue
-        if c.keywords or len(c.args) > len(cal.pos_params):
-            continue
+        names = [a.arg for a in cal.node.args.args] + [a.arg for a in cal.node.args.kwonlyargs]
+        bound = list(zip([a.arg for a in cal.node.args.args], c.args)) + [(k.arg, k.value) for k in c.keywords if k.arg in names]
         role1 = {}
-        for p0, a0 in zip(cal.pos_params, c.args):
+        for p0, a0 in bound:
             if isinstance(a0, ast.Name) and a0.id in role0:
-                role1[p0.arg] = role0[a0.id]
-        if set(role1.values()) == {'answer', 'reference'}:
+                role1[p0] = role0[a0.id]
+            elif size_role_here(a0) is not None:
+                role1[p0] = 'size:' + size_role_here(a0)
+        if {str(v).replace('size:', '') for v in role1.values()} == {'answer', 'reference'}:
             tests += analyse(cal, role1)
     if not tests:
         # is there any size of a state set anywhere in the checker?  if so the form is not recognised; if not, nothing compares sizes
